@@ -24,9 +24,9 @@ META = {
         'default, the result is scaled by rad2deg*3600 exactly when units != 0; C18.HAVERSINE - sin^2(d/2) = sin^2(ddec/2) + '
         'cos dec1 cos dec2 sin^2(dra/2) and d = 2 arcsin(sqrt(.)); C18.ANG-INV - angles_to_x writes (cos phi sin theta, '
         'sin phi sin theta, cos theta), x_to_angles reads arctan2(y, x) and arccos(z/r) with no other definition of theta, both apply '
-        '90 - . under latitude; C18.NOMUT - the transforms do not modify data borrowed from the input frames. C18.ASIN-CLIP - the arcsin argument of both (mu, nu) transforms is clamped to exactly [-1, 1] (np.clip / min-max; a np.where snap below 1 is reported); one-expression helpers are inlined before the haversine identity is compared, and a (1 - cos d)/2 half-angle term is reported as cancelling. NOT decided: symmetry, '
+        '90 - . under latitude; C18.NOMUT - the transforms do not modify data borrowed from the input frames. C18.ASIN-CLIP - the arcsin argument of both (mu, nu) transforms is clamped to exactly [-1, 1] (np.clip / min-max; a np.where snap below 1 is reported); one-expression helpers are inlined before the haversine identity is compared, and a (1 - cos d)/2 half-angle term is reported as cancelling. C18.FLOAT-OUT - the arrays that angles_to_x / x_to_angles fill with sines, cosines and angles are not allocated in the dtype of the input (integer input would truncate every value); NOT decided: symmetry, '
         'range, accuracy over nine decades, isometry, "never NaN" (numerical).'),
-    'floors': {'C18.ASIN-CLIP': 2, 'C18.ROT': 7, 'C18.NODE': 5, 'C18.STRIPE': 3, 'C18.UNITS': 4, 'C18.HAVERSINE': 2, 'C18.ANG-INV': 5, 'C18.NOMUT': 2},
+    'floors': {'C18.FLOAT-OUT': 2, 'C18.ASIN-CLIP': 2, 'C18.ROT': 7, 'C18.NODE': 5, 'C18.STRIPE': 3, 'C18.UNITS': 4, 'C18.HAVERSINE': 2, 'C18.ANG-INV': 5, 'C18.NOMUT': 2},
     'trusted_base': ['published SDSS survey-coordinate convention: (mu, nu) is a rotation by the inclination about the x axis through the node'],
 }
 
@@ -397,6 +397,9 @@ def check_ang_inv(ctx, repo):
 
 
 def run(ctx):
+    from .floatlib import check_float_alloc
+    check_float_alloc(ctx, ctx.repo, 'C18.FLOAT-OUT', [(MANGLE, 'angles_to_x'), (MANGLE, 'x_to_angles')],
+                      'whole-number angles (or integer unit vectors) convert to truncated coordinates and the two conversions are no longer inverses')
     check_rot(ctx, ctx.repo)
     check_stripe(ctx, ctx.repo)
     check_gcirc(ctx, ctx.repo)
